@@ -106,7 +106,7 @@ def BOUNDS(tier):
     from checks import C01
     return {"A_families": {f: {"m": FAMILIES[f][0], "k": FAMILIES[f][1], "alphabet": list(FAMILIES[f][2]),
                                "distinct_C": int(len(family(f)))} for f in _families(tier)},
-            "A_n_on": "1 for m=4; 1,2 for m=6", "A_rcond": RCONDS, "A_chunk": CHUNK,
+            "A_n_on": "1 for m=4; 1,2 for m=6", "A_rcond": RCONDS, "A_chunk": CHUNK, "A_big(m, rank, n_on)": ABIG,
             "B_masks": B_MASKS_Q if tier == "quick" else B_MASKS_T, "B_kinds": C01.KIND_NAMES,
             "B_layer_sets": ["".join(map(str, s)) for s in B_LSETS], "B_rcond": B_RCONDS,
             "B_wavelengths": ["all 500 nm", "third sensor 700 nm"], "B_duplicate_position": [1, 2], "B_third_size": ["d1", "d2"], "B_cond_max": B_COND_MAX}
@@ -138,6 +138,8 @@ def _cases_ab(tier):
         N = len(family(f))
         for c in range((N + CHUNK - 1) // CHUNK):
             yield Case("A:%s:chunk=%d" % (f, c), {"kind": "A", "family": f, "chunk": c})
+    for m, k, non in ABIG:
+        yield Case("Abig:m=%d:rank=%d:non=%d" % (m, k, non), {"kind": "Abig", "m": m, "k": k, "non": non})
     for b in _b_cases(tier):
         yield Case("B:%s/%s+%s/%s/%s:dup@%d" % (b[0], b[1], b[3], b[2], b[4], b[5]), {"kind": "B", "b": list(b)})
 
@@ -312,6 +314,34 @@ def _flush(o, agg):
         o.check(clause, True, measure=worst, tol=TOL_A, n=cnt)
 
 
+# covariance matrices far larger than the exhaustive families (size classes where LAPACK drivers block):
+# C = G G^T / m with a deterministic integer factor G (m x rank), full rank and rank deficient
+ABIG = [(40, 40, 5), (40, 25, 5), (70, 70, 10), (70, 41, 10), (130, 130, 8), (130, 97, 8)]
+
+
+def _abig_matrix(m, k):
+    i, j = numpy.indices((m, k))
+    G = ((i * 7 + j * 3 + (i * j) % 11) % 5 - 2.0) + 3.0 * (i == j)
+    return G @ G.T / m
+
+
+def _evaluate_abig(p):
+    o = Out()
+    fn = _fn()
+    C = _abig_matrix(p["m"], p["k"])
+    non = p["non"]
+    Cff = C[2 * non:, 2 * non:]
+    w, V = numpy.linalg.eigh(Cff)
+    agg = {"shape": 0}
+    for rc in RCONDS:
+        _judge(o, fn, C, non, rc, "rc=%g" % rc, agg, (w, V))
+    _flush(o, agg)
+    wmax = float(numpy.max(numpy.abs(w)))
+    o.stat("nontrivial_rank_deficient_offoff", int((numpy.abs(w) <= ZERO_EIG * wmax).any()))
+    o.outcome((p["m"], p["k"], int((numpy.abs(w) > ZERO_EIG * wmax).sum())))
+    return o
+
+
 def _fn():
     from aotools.turbulence import slopecovariance as sc
     return sc.create_tomographic_covariance_reconstructor
@@ -322,6 +352,8 @@ def evaluate(p):
         return _evaluate_b(p)
     if p["kind"] == "H":
         return _evaluate_h(p)
+    if p["kind"] == "Abig":
+        return _evaluate_abig(p)
     o = Out()
     fn = _fn()
     fam = family(p["family"])
